@@ -86,7 +86,7 @@ def scripts(rep, mir, L, maxlen):
         for c in (1, 2, 3, 4):
             E = Env(mir, L); vm = E.vm
             m0 = Machine(); m0.ghost['writes'] = []; m0.ghost['rank'] = rank; m0.ghost['shape_cell'] = m0.alloc(Seq([1, 1000] + ([width] if rank == 3 else [])))
-            o = vm.run(new, [E.item(t), c], m0)
+            o = vm.merge_outcomes(vm.run(new, [E.item(t), c], m0))
             if len(o) != 1 or o[0][1] != 'ret': bad.setdefault('new', ('SampleBuffer::new panics', (t, c))); continue
             (m0, _, buf) = o[0]; bc = m0.alloc(buf)
             # DFS over scripts; state = (machine, logical sequence since reset, model store dict, depth)
@@ -99,24 +99,24 @@ def scripts(rep, mir, L, maxlen):
                     m1 = m.clone(); m1.ghost['writes'] = []; logical1 = list(logical); st1 = dict(st); key = None; nops += 1
                     if op == 'push':
                         v, es = E.value(t, len(script) * 10 + depth)
-                        o = vm.run(push, [Ref(bc), v], m1)
+                        o = vm.merge_outcomes(vm.run(push, [Ref(bc), v], m1))
                         if len(o) != 1 or o[0][1] != 'ret': bad.setdefault('push.panic', ('push panics', (t, c, script + (op,), str(o[0][2])[:150]))); continue
                         m1 = o[0][0]; ch = o[0][2]; logical1.append(es)
                     elif op == 'copy':
                         before = m1.mem[bc]
-                        o = vm.run(copy, [Ref(bc)], m1)
+                        o = vm.merge_outcomes(vm.run(copy, [Ref(bc)], m1))
                         if len(o) != 1 or o[0][1] != 'ret': bad.setdefault('copy.panic', ('copy_as_chunk panics', (t, c, script + (op,)))); continue
                         m1 = o[0][0]; ch = o[0][2]
                         if not vm._same(before, m1.mem[bc]): bad.setdefault('copy.mutates', ('copy_as_chunk (flush) changes the buffer', (t, c, script + (op,))))
                     else:
-                        o = vm.run(reset, [Ref(bc)], m1)
+                        o = vm.merge_outcomes(vm.run(reset, [Ref(bc)], m1))
                         if len(o) != 1 or o[0][1] != 'ret': bad.setdefault('reset.panic', ('reset panics', (t, c, script + (op,)))); continue
                         m1 = o[0][0]; ch = o[0][2]
                     # store whatever chunk came out through the real store_zarr_chunk
                     if ch.name == 'Some':
                         chunk = ch.f[0]; g = lambda f: L.get('Chunk', chunk, f)
                         reached.add(op + ('-full' if g('len') == g('full_at') else '-partial'))
-                        o = vm.run(store, [Ref(m1.alloc(Opaque('array'))), chunk, 0], m1)
+                        o = vm.merge_outcomes(vm.run(store, [Ref(m1.alloc(Opaque('array'))), chunk, 0], m1))
                         if len(o) != 1 or o[0][1] != 'ret' or o[0][2].name != 'Ok': bad.setdefault('store.panic', ('store_zarr_chunk fails', (t, c, script + (op,), str(o[0][2])[:200]))); continue
                         m1 = o[0][0]
                         for (kind, idx, sub, vals, _arr) in m1.ghost['writes']:
@@ -314,18 +314,18 @@ def sync_chain_storage(rep, mir, L):
                         stats = Seq([Struct((Str('s'), SOME(Enum(en.index('ScalarString'), 'ScalarString', (sv,), 'Value')))), Struct((Str('draw'), SOME(Enum(en.index('ScalarU64'), 'ScalarU64', (d,), 'Value')))), Struct((Str('absent'), NONE()))])
                         draws = Seq([Struct((Str('x'), SOME(Enum(en.index('ScalarU64'), 'ScalarU64', (xv,), 'Value'))))])
                         info = L.make('Progress', {'draw': d, 'chain': 0, 'diverging': False, 'tuning': d < T, 'step_size': E.A.fresh('eps'), 'num_steps': 1})
-                        o = vm.run(rec, [Ref(sc), Ref(m.alloc(Opaque('settings'))), stats, draws, Ref(m.alloc(info))], m)
+                        o = vm.merge_outcomes(vm.run(rec, [Ref(sc), Ref(m.alloc(Opaque('settings'))), stats, draws, Ref(m.alloc(info))], m))
                         if len(o) != 1 or o[0][1] != 'ret' or o[0][2].name != 'Ok': bad.setdefault('sync.record', ('record_sample fails / forks: %s' % str([(k, str(v)[:120]) for (_, k, v) in o][:2]), (c, N, T))); ok = False; break
                         m = o[0][0]; apply_writes(m)
                         if every is None or (d + 1) % every != 0: continue
                         before = m.mem[sc]
-                        o = vm.run(flush, [Ref(sc)], m)
+                        o = vm.merge_outcomes(vm.run(flush, [Ref(sc)], m))
                         if len(o) != 1 or o[0][1] != 'ret' or o[0][2].name != 'Ok': bad.setdefault('sync.flush', ('flush fails / forks: %s' % str([(k, str(v)[:120]) for (_, k, v) in o][:2]), (c, N, T))); ok = False; break
                         m = o[0][0]; apply_writes(m); nflush += 1
                         if not vm._same(before, m.mem[sc]): bad.setdefault('sync.flush.mutates', ('flush changes the chain storage', (c, N, T)))
                         check('after flush following', d)
                     if not ok: continue
-                    o = vm.run(fin, [m.mem[sc]], m)
+                    o = vm.merge_outcomes(vm.run(fin, [m.mem[sc]], m))
                     if len(o) != 1 or o[0][1] != 'ret' or o[0][2].name != 'Ok': bad.setdefault('sync.finalize', ('finalize fails / forks: %s' % str([(k, str(v)[:120]) for (_, k, v) in o][:2]), (c, N, T))); continue
                     apply_writes(o[0][0]); check('after finalize following', N - 1)
                     rep.absorb_vm(vm)
@@ -379,7 +379,7 @@ def async_writer(rep, mir, L):
                                 vm.add_model(r'^<\{async fn body of .*::async_store_(chunk|chunk_subset|array_subset)<.*>\(\)\} as Future>::poll$', poll_store)
                                 # sync reference
                                 ms = machine(); arr = Opaque('array'); arr.tag = 'the array'
-                                o = vm.run(sync, [Ref(ms.alloc(arr)), chunk(), chain], ms)
+                                o = vm.merge_outcomes(vm.run(sync, [Ref(ms.alloc(arr)), chunk(), chain], ms))
                                 if len(o) != 1 or o[0][1] != 'ret': bad.setdefault('sync', ('store_zarr_chunk forks or panics', (t, width, c, ln, cidx, chain, fail))); continue
                                 (ms, _, rs) = o[0]
                                 # async twin: build the coroutine, then poll until Ready
